@@ -91,6 +91,8 @@ def oracle (c : MCase) (algo : Algo) (sres : String) (ir : ImplRes) (priorKept :
       let want := subseqB c.n nh
       if ir.score.isSome ≠ want then
         bad := bad ++ [("C01", s!"returned {if ir.score.isSome then "a match" else "None"} but the needle is {if want then "" else "not "}a subsequence of the normalized haystack")]
+      else if sScore.isSome ≠ want then
+        bad := bad ++ [("C01", s!"the score-only variant returned {if sScore.isSome then "a match" else "None"} but the needle is {if want then "" else "not "}a subsequence of the normalized haystack")]
     | .substring =>
       let best := bestOccurrence c.cfg c.ext c.hrep c.h c.n
       if ir.score.isSome ≠ best.isSome then
@@ -98,6 +100,8 @@ def oracle (c : MCase) (algo : Algo) (sres : String) (ir : ImplRes) (priorKept :
       else if let (some _, some b) := (ir.score, best) then
         if ir.idxs.head? ≠ some b then
           bad := bad ++ [("C05", s!"substring reports position {ir.idxs.head?} but the leftmost best-bonus occurrence is {b}")]
+      if ir.score.isSome = best.isSome && sScore.isSome ≠ best.isSome then
+        bad := bad ++ [("C05", s!"the score-only substring variant returned {if sScore.isSome then "a match" else "None"} but the needle does {if best.isSome then "" else "not "}occur contiguously")]
     | .prefix =>
       let l := if isWs (c.n.headD 0) then 0 else lead c.hrep c.h
       let want := (nh.drop l).take c.n.length == c.n && l + c.n.length ≤ c.h.length
@@ -105,6 +109,8 @@ def oracle (c : MCase) (algo : Algo) (sres : String) (ir : ImplRes) (priorKept :
         bad := bad ++ [("C05", s!"prefix decision {ir.score.isSome}, specification {want} (leading whitespace {l})")]
       else if ir.score.isSome && ir.idxs.head? ≠ some l then
         bad := bad ++ [("C02", s!"prefix match anchored at {ir.idxs.head?}, expected {l}")]
+      if ir.score.isSome = want && sScore.isSome ≠ want then
+        bad := bad ++ [("C05", s!"score-only prefix decision {sScore.isSome}, specification {want} (leading whitespace {l})")]
     | .postfix =>
       let t := if isWs (c.n.getLast?.getD 0) then 0 else trail c.hrep c.h
       let want := t + c.n.length ≤ c.h.length && (nh.drop (c.h.length - t - c.n.length)).take c.n.length == c.n
@@ -112,12 +118,16 @@ def oracle (c : MCase) (algo : Algo) (sres : String) (ir : ImplRes) (priorKept :
         bad := bad ++ [("C05", s!"postfix decision {ir.score.isSome}, specification {want} (trailing whitespace {t})")]
       else if ir.score.isSome && ir.idxs.getLast? ≠ some (c.h.length - t - 1) then
         bad := bad ++ [("C02", s!"postfix match ends at {ir.idxs.getLast?}, expected {c.h.length - t - 1}")]
+      if ir.score.isSome = want && sScore.isSome ≠ want then
+        bad := bad ++ [("C05", s!"score-only postfix decision {sScore.isSome}, specification {want} (trailing whitespace {t})")]
     | .exact =>
       let l := if isWs (c.n.headD 0) then 0 else lead c.hrep c.h
       let t := if isWs (c.n.getLast?.getD 0) then 0 else trail c.hrep c.h
       let want := l + t ≤ c.h.length && (nh.drop l).take (c.h.length - l - t) == c.n && c.h.length - l - t = c.n.length
       if ir.score.isSome ≠ want then
         bad := bad ++ [("C05", s!"exact decision {ir.score.isSome}, specification {want} (leading {l}, trailing {t})")]
+      else if sScore.isSome ≠ want then
+        bad := bad ++ [("C05", s!"score-only exact decision {sScore.isSome}, specification {want} (leading {l}, trailing {t})")]
   -- C04: never above the true optimum (brute force, small inputs only); one-character needles reach it
   if algo == .fuzzy && c.nn && !c.cfg.preferPrefix && c.h.length ≤ 12 && c.n.length ≤ 4 && !c.n.isEmpty then
     if let some sc := ir.score then
